@@ -14,6 +14,7 @@ import (
 	"sort"
 	"sync"
 
+	"github.com/Azbesciak/RealDecisionMaker/lib/logic/preference-func/electreIII"
 	"github.com/Azbesciak/RealDecisionMaker/lib/model"
 	"github.com/Azbesciak/RealDecisionMaker/lib/utils"
 )
@@ -327,6 +328,11 @@ func installHook() {
 			rec["repDigAt"] = digest(ev.Report)
 			rec["samePtr"] = ev.Before == ev.After
 		}
+		if ev.Kind == "evaluate" && r.method == "electreIII" && ev.After != nil {
+			if c := credMatrix(ev.After); c != nil {
+				rec["cred"] = c
+			}
+		}
 		if r.probe && ev.After != nil {
 			eo, ro, why := probeState(r.method, ev.After)
 			rec["probeEval"] = eo
@@ -337,6 +343,41 @@ func installHook() {
 		}
 		r.events = append(r.events, &liveEvent{rec: rec, after: ev.After, original: ev.Original, report: ev.Report})
 	}
+}
+
+// credMatrix records stage 1 of ELECTRE III (hook H2): the credibility matrix the method derives from the state
+// it is handed, as integers of 1e-6 (key cred6 is not rescaled by the projector).
+func credMatrix(p *model.DecisionMakingParams) (out interface{}) {
+	defer func() {
+		if recover() != nil {
+			out = nil
+		}
+	}()
+	f := reflect.ValueOf(p.MethodParameters).FieldByName("Criteria")
+	if !f.IsValid() || f.IsNil() {
+		return nil
+	}
+	ec, ok := f.Interface().(*electreIII.ElectreCriteria)
+	if !ok {
+		return nil
+	}
+	alts := append([]model.AlternativeWithCriteria{}, p.ConsideredAlternatives...)
+	crit := append(model.Criteria{}, p.Criteria...)
+	m := electreIII.VerifCredibilityMatrix(&alts, &crit, ec)
+	ids := []interface{}{}
+	for _, a := range *m.Alternatives {
+		ids = append(ids, a)
+	}
+	n := m.Values.Size
+	rows := make([]interface{}, n)
+	for i := 0; i < n; i++ {
+		row := make([]interface{}, n)
+		for j := 0; j < n; j++ {
+			row[j] = math.Round(m.Values.At(i, j) * 1e6)
+		}
+		rows[i] = row
+	}
+	return J{"alts": ids, "cred6": rows}
 }
 
 // jsonTree marshals x the way the API does and parses it back to a generic tree.
